@@ -34,7 +34,7 @@ for mp in sorted(glob.glob(os.path.join(HERE, 'seeded', '*', 'meta.json'))):
     owns = {1: 'fires', 0: 'silent', 2: 'inconclusive', None: 'not run'}[own]
     if own_t is not None:
         owns += f" (thorough: {{1: 'fires', 0: 'silent', 2: 'inconclusive'}}[own_t])".replace("{1: 'fires', 0: 'silent', 2: 'inconclusive'}[own_t]", {1: 'fires', 0: 'silent', 2: 'inconclusive'}[own_t])
-    lines.append(f"| {m['id']} | {m['property']} | {'yes' if m.get('confirmed') else 'NO'} | {owns} | {', '.join(m.get('caught_by', [])) or '-'} |")
+    lines.append(f"| {m['id']} | {m['property']} | {'yes' if m.get('confirmed') else ('was (' + m['superseded'] + ')' if m.get('superseded') else 'NO')} | {owns} | {', '.join(m.get('caught_by', [])) or '-'} |")
 lines.append('')
 lines.append('### 5.3 Behaviour-preserving changes (benign/<id>/, tools/benign.py): no check may fire\n')
 lines.append('Changes that keep every property true (own ones, and ones written by independent sub-agents together with a program that '
